@@ -420,13 +420,16 @@ func execWorkspaceMeta(t *core.Trace) *core.Result {
 			e.path = "sub/" + e.path
 		}
 		e.mode = modes[r.Intn(len(modes))]
-		switch r.Intn(5) {
+		switch r.Intn(7) {
 		case 0:
 			e.mode |= os.ModeSetuid
 		case 1:
 			e.mode |= os.ModeSetgid
 		case 2:
 			e.mode |= os.ModeSticky
+		case 3:
+			// (several of them at once)
+			e.mode |= []os.FileMode{os.ModeSetuid | os.ModeSetgid, os.ModeSetuid | os.ModeSticky, os.ModeSetgid | os.ModeSticky, os.ModeSetuid | os.ModeSetgid | os.ModeSticky}[r.Intn(4)]
 		}
 		if r.Chance(25) {
 			e.dir, e.data = true, nil
